@@ -50,9 +50,14 @@ def rule_inj4(ctx: Ctx) -> RuleResult:
                 elif _is_user_text(label):
                     ok, why = _sanitised_for(lexctx, wrappers, prv, nxt)
                     rr.ob(f.relpath, f.qualname, describe([a]), st, DISCHARGED if ok else VIOLATED, why, r.lineno)
+                elif label.startswith(("call:len", "call:int", "call:os.getpid", "call:str(len")):
+                    rr.ob(f.relpath, f.qualname, describe([a]), st, DISCHARGED, "a number: digits only", r.lineno)
                 else:
-                    raise AnalysisError(f"INJ-4: cannot classify header component `{label}` (neither a known safe "
-                                        f"producer nor user text)")
+                    # anything else is run-time text of unknown origin (a local, a loop variable, an attribute of some object):
+                    # inside the literal it needs the same neutralisation as the echoed command
+                    ok, why = _sanitised_for(lexctx, wrappers, prv, nxt)
+                    rr.ob(f.relpath, f.qualname, describe([a]), st, DISCHARGED if ok else VIOLATED,
+                          why if ok else f"`{label}` is not a fixed-alphabet value and {why}", r.lineno)
                 txt_before += "\x00"
             # the literal must be closed by the constant text itself
             rr.instances += 1
